@@ -181,7 +181,16 @@ func (s *Schema) Check() (err error) {
 	defer func() {
 		err = panics.Handle(recover(), err)
 	}()
-	return s.compile()
+	if err := s.compile(); err != nil {
+		return err
+	}
+
+	// Nothing but blanks and comments: there is nothing to validate with and
+	// no example, Validate and Example say the same.
+	if s.inner.RootNode() == nil {
+		return errors.NewDocumentError(s.file, errors.ErrEmptySchema)
+	}
+	return nil
 }
 
 func (s *Schema) Validate(document jschema.Document) (err error) {
